@@ -54,13 +54,14 @@ typedef struct {
     int ca;                /* client authentication */
     int res;               /* 0 full, 1 resumed by session id, 2 resumed by ticket / TLS 1.3 PSK */
     int early;             /* TLS 1.3 0-RTT: bytes of early data the resumed client sends */
+    int ext;               /* client sends server_name (+ ALPN when compiled in), server has the matching callbacks */
 } scn_t;
 
 static const scn_t S_tls12_psk[] = {
     { "psk-00ae", MX_TLS12, MX_TLS12, MX_TLS12, 0x00ae, 0, 0, 0 },
     { "psk-00ae-resumed", MX_TLS12, MX_TLS12, MX_TLS12, 0x00ae, 0, 1, 0 },
     { "psk-008c", MX_TLS12, MX_TLS12, MX_TLS12, 0x008c, 0, 0, 0 },
-    { "psk-00af", MX_TLS12, MX_TLS12, MX_TLS12, 0x00af, 0, 0, 0 },
+    { "psk-00af-sni", MX_TLS12, MX_TLS12, MX_TLS12, 0x00af, 0, 0, 0, 1 },
     { "psk-008d-ticket", MX_TLS12, MX_TLS12, MX_TLS12, 0x008d, 0, 2, 0 },
 };
 static const scn_t S_tls11_psk[] = {
@@ -72,7 +73,7 @@ static const scn_t S_dtls12_psk[] = {
     { "psk-00ae", MX_DTLS12, MX_DTLS12, MX_DTLS12, 0x00ae, 0, 0, 0 },
     { "psk-00ae-resumed", MX_DTLS12, MX_DTLS12, MX_DTLS12, 0x00ae, 0, 1, 0 },
     { "psk-008c", MX_DTLS12, MX_DTLS12, MX_DTLS12, 0x008c, 0, 0, 0 },
-    { "psk-00af", MX_DTLS12, MX_DTLS12, MX_DTLS12, 0x00af, 0, 0, 0 },
+    { "psk-00af-sni", MX_DTLS12, MX_DTLS12, MX_DTLS12, 0x00af, 0, 0, 0, 1 },
 };
 static const scn_t S_dtls10_psk[] = {
     { "psk-008c", MX_DTLS10, MX_DTLS10, MX_DTLS10, 0x008c, 0, 0, 0 },
@@ -81,7 +82,7 @@ static const scn_t S_dtls10_psk[] = {
 };
 static const scn_t S_tls12_cert[] = {
     { "rsa-003c", MX_TLS12, MX_TLS12, MX_TLS12, 0x003c, 0, 0, 0 },
-    { "ecdhe-rsa-c02f", MX_TLS12, MX_TLS12, MX_TLS12, 0xc02f, 0, 0, 0 },
+    { "ecdhe-rsa-c02f-sni", MX_TLS12, MX_TLS12, MX_TLS12, 0xc02f, 0, 0, 0, 1 },
     { "ecdhe-ecdsa-c023-ca", MX_TLS12, MX_TLS12, MX_TLS12, 0xc023, 1, 0, 0 },
     { "rsa-009c-resumed", MX_TLS12, MX_TLS12, MX_TLS12, 0x009c, 0, 1, 0 },
     { "rsa-003c-ticket", MX_TLS12, MX_TLS12, MX_TLS12, 0x003c, 0, 2, 0 },
@@ -90,7 +91,7 @@ static const scn_t S_tls12_cert[] = {
     { "ecdhe-ecdsa-c02c", MX_TLS12, MX_TLS12, MX_TLS12, 0xc02c, 0, 0, 0 },
 };
 static const scn_t S_tls13[] = {
-    { "aes128gcm", MX_TLS13, MX_TLS13, MX_TLS13, 0x1301, 0, 0, 0 },
+    { "aes128gcm-sni", MX_TLS13, MX_TLS13, MX_TLS13, 0x1301, 0, 0, 0, 1 },
     { "chacha-ca", MX_TLS13, MX_TLS13, MX_TLS13, 0x1303, 1, 0, 0 },
     { "aes256gcm-resumed", MX_TLS13, MX_TLS13, MX_TLS13, 0x1302, 0, 2, 0 },
     { "aes128gcm-resumed-early", MX_TLS13, MX_TLS13, MX_TLS13, 0x1301, 0, 2, 100 },
@@ -104,8 +105,8 @@ static const scn_t S_dtls_cert[] = {
 static const scn_t S_multi[] = {
     { "c12-sAll", MX_TLS12, -VM_ALL, MX_TLS12, 0xc02f, 0, 0, 0 },
     { "c13-sAll", MX_TLS13, -VM_ALL, MX_TLS13, 0x1301, 0, 0, 0 },
-    { "cAll-s12", -VM_ALL, MX_TLS12, MX_TLS12, 0, 0, 0, 0 },
-    { "cAll-s13", -VM_ALL, MX_TLS13, MX_TLS13, 0, 0, 0, 0 },
+    { "cAll-s12-sni", -VM_ALL, MX_TLS12, MX_TLS12, 0, 0, 0, 0, 1 },
+    { "cAll-s13-sni", -VM_ALL, MX_TLS13, MX_TLS13, 0, 0, 0, 0, 1 },
     { "cAll-s11", -VM_ALL, MX_TLS11, MX_TLS11, 0, 0, 0, 0 },
     { "c11-sAll", MX_TLS11, -VM_ALL, MX_TLS11, 0x002f, 0, 0, 0 },
 };
@@ -278,13 +279,61 @@ static void lane_cfg(const scn_t *s, int role, mx_cfg *c)
     if (v < 0) { c->verMask = -v; c->ver = s->nver; } else c->ver = v;
     c->suite = s->suite; c->clientAuth = s->ca; c->useTicket = (s->res == 2 && s->nver != MX_TLS13);
 }
+static void c08_sni_cb(void *ssl, char *hostname, int32 hostnameLen, sslKeys_t **newKeys)
+{
+    /* an application that serves every name with the keys the session was created with */
+    volatile char sink = 0; for (int32 i = 0; i < hostnameLen; i++) sink ^= hostname[i];
+    (void) sink; *newKeys = ((ssl_t *) ssl)->keys;
+}
+#ifdef USE_ALPN
+static void c08_alpn_cb(void *ssl, short protoCount, char *proto[MAX_PROTO_EXT], int32 protoLen[MAX_PROTO_EXT], int32 *index)
+{
+    volatile char sink = 0; (void) ssl;
+    for (int i = 0; i < protoCount && i < MAX_PROTO_EXT; i++) for (int32 j = 0; j < protoLen[i]; j++) sink ^= proto[i][j];
+    (void) sink; *index = protoCount > 1 ? 1 : 0;
+}
+#endif
+static int32_t c08_ext_cb(ssl_t *ssl, uint16_t extType, uint8_t extLen, void *e)
+{
+    volatile unsigned char sink = 0; (void) ssl; (void) extType;
+    for (int i = 0; i < extLen; i++) sink ^= ((unsigned char *) e)[i];
+    (void) sink; return 0;
+}
+/* mx_new_client with a server_name and an ALPN extension and an extension callback */
+static int new_client_ext(mx_ep *e, const mx_cfg *c, sslSessionId_t *sid)
+{
+    sslSessOpts_t o; mx_opts(&o, c, MX_CLIENT);
+    memset(e, 0, sizeof *e); e->role = MX_CLIENT; e->ver = c->ver; e->id = 0; e->name = "C";
+    psCipher16_t cs[1] = { c->suite };
+    e->sid = sid;
+    tlsExtension_t *ext = NULL; unsigned char *x = NULL; int32 xl = 0;
+    if (matrixSslNewHelloExtension(&ext, NULL) < 0) return -1;
+    if (matrixSslCreateSNIext(NULL, (unsigned char *) "localhost", 9, &x, &xl) < 0) { matrixSslDeleteHelloExtension(ext); return -1; }
+    matrixSslLoadHelloExtension(ext, x, xl, EXT_SNI); psFree(x, NULL);
+#ifdef USE_ALPN
+    unsigned char *pr[2] = { (unsigned char *) "h2", (unsigned char *) "http/1.1" }; int32 prl[2] = { 2, 8 };
+    if (matrixSslCreateALPNext(NULL, 2, pr, prl, &x, &xl) < 0) { matrixSslDeleteHelloExtension(ext); return -1; }
+    matrixSslLoadHelloExtension(ext, x, xl, EXT_ALPN); psFree(x, NULL);
+#endif
+    mx_actor = e->id;
+    int rc = matrixSslNewClientSession(&e->ssl, mx_pick_ckeys(c), sid, c->suite ? cs : NULL, c->suite ? 1 : 0, mx_cert_cb_accept, "localhost", ext, c08_ext_cb, &o);
+    matrixSslDeleteHelloExtension(ext);
+    e->wantTake = 1;
+    return rc < 0 ? rc : 0;
+}
 static int lane_open(mx_conn *k, const scn_t *s, sslSessionId_t *sid, int early)
 {
     mx_cfg sc, cc; lane_cfg(s, MX_SERVER, &sc); lane_cfg(s, MX_CLIENT, &cc);
     if (early) sc.earlyData = 16384;
     memset(k, 0, sizeof *k); k->cfg = cc; k->dtls = MX_IS_DTLS(s->nver);
     if (mx_new_server(&k->s, &sc) < 0) return -1;
-    if (mx_new_client(&k->c, &cc, sid) < 0) return -2;
+    if (s->ext) {
+        matrixSslRegisterSNICallback(k->s.ssl, c08_sni_cb);
+#ifdef USE_ALPN
+        matrixSslRegisterALPNCallback(k->s.ssl, c08_alpn_cb);
+#endif
+    }
+    if ((s->ext ? new_client_ext(&k->c, &cc, sid) : mx_new_client(&k->c, &cc, sid)) < 0) return -2;
     k->s.ver = k->c.ver = s->nver;
     return 0;
 }
